@@ -110,8 +110,11 @@ def check(prop, tier, repo, seed):
         if res.status == "undecided":
             undecided.append("%s: %s" % (unit, res.reason))
             continue
-        n_fail_fns = len({f["fn"] for f in res.failures if f["fn"]})
-        obligations += res.verified + res.errors
+        # function-level verification conditions; failures of functions that carry no obligation of THIS property belong to
+        # another property's check and are left out of both counts (they are listed under notes)
+        foreign = len({f["fn"] for f in res.failures if f["fn"] and f["kind"] != "prelude"
+                       and not [o for o in f["obligations"] if any(o.startswith(p) for p in prefixes)]})
+        obligations += res.verified + res.errors - foreign
         discharged += res.verified
         for f in res.failures:
             mine = [o for o in f["obligations"] if any(o.startswith(p) for p in prefixes)]
@@ -355,6 +358,8 @@ def main():
     r = sub.add_parser("replay")
     r.add_argument("path")
     sub.add_parser("manifest")
+    al = sub.add_parser("all")
+    al.add_argument("--tier", default="quick")
     s = sub.add_parser("selftest")
     s.add_argument("--only")
     a = ap.parse_args()
@@ -370,6 +375,12 @@ def main():
         sys.exit(replay(a.path))
     if a.cmd == "manifest":
         manifest()
+    if a.cmd == "all":
+        worst = 0
+        for pid in sorted(P.PROPS):
+            r = subprocess.run([sys.executable, os.path.join(VERIF, "vp.py"), "check", pid, "--tier", a.tier])
+            worst = max(worst, r.returncode)
+        sys.exit(worst)
     if a.cmd == "selftest":
         import selftest
         sys.exit(selftest.main(a.only))
